@@ -64,7 +64,7 @@ InitObs(meta) ==
       reqThreads |-> {}, occBad |-> {}, ioWriteBig |-> FALSE,
       memBad |-> {},
       shutdown |-> FALSE, afterShutdown |-> {}, undoneAtShutdown |-> FALSE,
-      cancelAll |-> FALSE, cancelAllHow |-> "",
+      cancelAll |-> FALSE, cancelAllHow |-> "", cancelRaised |-> FALSE,
       stuck |-> "", ended |-> FALSE, permsBad |-> FALSE, finalBad |-> <<>>,
       n |-> 0 ]
 
@@ -312,7 +312,7 @@ CancelCall(o0, ev) ==
                         ELSE o0.x[j]]]
 
 CancelRet(o0, ev) ==
-    IF ~ev.ok THEN o0 ELSE
+    IF ~ev.ok THEN [o0 EXCEPT !.cancelRaised = TRUE] ELSE
     [o0 EXCEPT !.x = [j \in DOMAIN o0.x |->
                         IF Addressed(o0, ev, j) /\ ~o0.x[j].doneBegun
                         THEN [o0.x[j] EXCEPT
